@@ -387,18 +387,30 @@ def r9_write_back_fixes_length_for_every_form(ctx, rule="C04.R9"):
     reachable in the helper's CFG when every `match` on the argument expression takes that form's
     arm (matches on anything else are left free)."""
     prog = ctx.prog
-    f = ctx.anchor_method("InstructionGenerator", "generate_fix_string_length")
+    # the write-back emitter is the generator function that emits DequeueFromReturnStack; the
+    # FixLength decision is made in it or in a helper it calls between the dequeue and the store
+    gs = [x for x in emit.generator_fns(prog)
+          if any(e.kind == "push" and e.instr == "DequeueFromReturnStack" for e in emit.events(prog, x).values())]
+    if len(gs) != 1:
+        raise CheckError("%s: expected one emitter of DequeueFromReturnStack, found %d" % (rule, len(gs)))
+    g = gs[0]
+    gevs = emit.events(prog, g)
+    cands = [g] + [e.callee for e in gevs.values() if e.kind == "gen" and e.callee is not None]
+    fs = [x for x in cands if any(e.kind == "push" and e.instr == "FixLength" for e in emit.events(prog, x).values())]
+    if len(fs) != 1:
+        raise CheckError("%s: the by-reference write-back emits FixLength in %d places" % (rule, len(fs)))
+    f = fs[0]
     body = f.body
     evs = emit.events(prog, f)
     pushes = {b for b, e in evs.items() if e.kind == "push" and e.instr == "FixLength"}
-    if not pushes:
-        raise CheckError("generate_fix_string_length pushes no FixLength")
     pv = mir.Prov(body)
     sws = {}
     for sw in mir.enum_switches(prog, body):
         if sw.adt.endswith("expr::types::Expression"):
             o = mir.strip_all(pv.of_place(sw.place))
-            if o[0] == "param":
+            while o[0] in ("field", "downcast", "index"):
+                o = mir.strip_all(o[1])
+            if o[0] in ("param", "call"):
                 sws[sw.bb] = sw
     for form in BY_REF_FORMS:
         seen = set()
@@ -416,17 +428,21 @@ def r9_write_back_fixes_length_for_every_form(ctx, rule="C04.R9"):
                 todo.extend(body.succ(b))
         ctx.decide(bool(pushes & seen), rule, "%s:%s" % (rule, form), f.loc,
                    "FixLength is emitted for a by-reference argument of the form %s when its type is STRING * n" % form,
-                   "generate_fix_string_length never emits FixLength when the by-reference argument is an "
+                   "%s never emits FixLength when the by-reference argument is an "
                    "Expression::%s: after a call (or INPUT / READ) a STRING * n %s keeps whatever length "
-                   "the callee left in it" % (form, {"Variable": "variable", "ArrayElement": "array element",
-                                                     "Property": "record field"}[form]))
-    # the helper is applied to every by-ref argument before the store
-    g = ctx.anchor_method("InstructionGenerator", "generate_un_stash_by_ref_args")
-    calls = [b for b, t in g.body.calls() if mir.callee_of(t) == f.id]
+                   "the callee left in it" % (f.name, form, {"Variable": "variable", "ArrayElement": "array element",
+                                                              "Property": "record field"}[form]))
+    # the FixLength decision lies between the dequeue and the store
+    deq = [b for b, e in gevs.items() if e.kind == "push" and e.instr == "DequeueFromReturnStack"]
+    fix = [b for b, e in gevs.items() if (e.kind == "gen" and e.callee is f) or (f is g and e.kind == "push" and e.instr == "FixLength")]
     stores = [b for b, t in g.body.calls() if mir.callee_path(t).split("::")[-1] == "generate_store_instructions"]
-    ok = bool(calls) and bool(stores) and all(any(g.body.dominates(c, st) for c in calls) for st in stores)
-    ctx.decide(ok, rule, rule + ":applied-before-store", g.loc, "FixLength helper dominates the write-back store",
-               "generate_un_stash_by_ref_args stores the dequeued value without going through generate_fix_string_length")
+    if f is g:
+        ok = bool(stores) and bool(deq) and all(any(g.body.dominates(d, st) for d in deq) for st in stores) \
+            and all(any(st in g.body.reachable(x) for st in stores) for x in fix)
+    else:
+        ok = bool(fix) and bool(stores) and all(any(g.body.dominates(c, st) for c in fix) for st in stores)
+    ctx.decide(ok, rule, rule + ":applied-before-store", g.loc, "the FixLength decision precedes the write-back store",
+               "%s stores the dequeued value without the FixLength decision in front of the store" % g.name)
     ctx.require(rule, 4)
 
 
